@@ -122,11 +122,11 @@ PROPS["C20"] = dict(
 # one module per group of translated functions, so that a function leaving the translatable subset breaks only the
 # properties resting on it)
 PROPS_EXTRA = {
-    'C01': ['Props.GenHeads', 'Props.GenJoin', 'Props.GenTraverse', 'Props.GenJoinTail', 'Props.GenCapstoneJoin', 'Props.GenViews'],
-    'C02': ['Props.C13Facts', 'Props.GenHeads', 'Props.GenJoinTail', 'Props.GenCapstoneJoin', 'Props.GenViews', 'Props.GenCapstoneViews', 'Props.GenAppend', 'Props.GenCapstoneAppend'],
-    'C03': ['Props.C19Gen', 'Props.GenTraverse', 'Props.GenCapstoneValues', 'Props.GenViews', 'Props.GenCapstoneViews'],
+    'C01': ['Props.GenHeads', 'Props.GenJoin', 'Props.GenTraverse', 'Props.GenJoinTail', 'Props.GenCapstoneJoin', 'Props.GenViews', 'Props.GenCapstoneSystem'],
+    'C02': ['Props.C13Facts', 'Props.GenHeads', 'Props.GenJoinTail', 'Props.GenCapstoneJoin', 'Props.GenViews', 'Props.GenCapstoneViews', 'Props.GenAppend', 'Props.GenCapstoneAppend', 'Props.GenCapstoneSystem'],
+    'C03': ['Props.C19Gen', 'Props.GenTraverse', 'Props.GenCapstoneValues', 'Props.GenViews', 'Props.GenCapstoneViews', 'Props.GenCapstoneSystem'],
     'C04': ['Props.C04Conc', 'Props.GenMisc', 'Props.GenAppend', 'Props.GenCapstoneAppend', 'Props.GenNewLog'],
-    'C05': ['Props.GenTraverse', 'Props.GenJoinTail', 'Props.GenCapstoneValues', 'Props.GenViews', 'Props.GenAppend', 'Props.GenCapstoneAppend'],
+    'C05': ['Props.GenTraverse', 'Props.GenJoinTail', 'Props.GenCapstoneValues', 'Props.GenViews', 'Props.GenAppend', 'Props.GenCapstoneAppend', 'Props.GenCapstoneSystem'],
     'C06': ['Props.EffectFacts', 'Props.CodecFacts', 'Props.GenHeads', 'Props.GenJoin', 'Props.GenJoinTail'],
     'C07': ['Props.CodecFacts'],
     'C08': ['Props.CodecFacts', 'Props.GenMisc'],
